@@ -166,7 +166,8 @@ func (c *Ctx) exhaustiveHistories(n int, uris []string, contents []string) [][]P
 func c08(c *Ctx) {
 	c.Rep.TieObs = []string{"O-proxy: the downstream call log (method, URI, version, language id, text payload) of the real proxy.Server driven by a scripted downstream"}
 	c.Rep.Rule = "histories of didOpen / didChange(one or two full-text content changes) / didSave (with and, in a part of the histories, without the text) / didClose over two template URIs and one plain .go URI with buffer contents ranging over valid, invalid, half-typed and empty templates: exhaustive up to a length bound and random beyond; oracle after every prefix: downstream holds, under the generated URI and language go, exactly the real compilation of the mirrored buffer, with the editor's version; every text payload is generated code; no template URI downstream; close closes; Hover probes between the edits (including edits that leave the generated code byte-identical but move the template positions) are translated with the position map of the current buffer; distinct = distinct history; non-trivial = history with at least one change after an open"
-	uris := []string{"file:///w/a.goht", "file:///w/sub/b.goht", "file:///w/c.go"}
+	// (a directory, and a file name, may contain the template suffix themselves)
+	uris := []string{"file:///w/a.goht", "file:///w/site.goht/views/b.goht.goht", "file:///w/c.go"}
 	var hists [][]POp
 	small := []string{bufferContents[0], bufferContents[6], bufferContents[3], bufferContents[5]} // valid, same code with another map, invalid, empty
 	if c.Thorough() {
